@@ -877,7 +877,7 @@ static double _fff_onesample_median_mfx(void* params, const fff_vector* x, const
   /* Compute the median of the estimated distribution */
   /** m = fff_weighted_median(Params->idx, Params->w, Params->z) - base;  **/
   _fff_sort_z(Params->idx, Params->tmp1, Params->tmp2, Params->z, Params->w);
-  m = fff_vector_wmedian_from_sorted_data (Params->tmp1, Params->tmp2);
+  m = fff_vector_wmedian_from_sorted_data (Params->tmp1, Params->tmp2) - base;
 
   return m;
 }
